@@ -279,6 +279,21 @@ def _pow(ex, args, kw, line):
         import ast
         return ex.binop(ast.Pow(), args[0], args[1], line)
     a, e, m = args
+    if hasattr(m, "F") or hasattr(a, "F"):
+        # field mode: modulus is the field prime
+        F = m.F if hasattr(m, "F") else a.F
+        if getattr(m, "name", None) != "p":
+            raise EngineLimit("pow modulo something other than the field prime in field mode")
+        a = a if hasattr(a, "F") else F.const(a)
+        if isinstance(e, int) and e == -1:
+            if F.decide_zero(a.res):
+                ex.raise_("ValueError", line)       # base not invertible for the given modulus
+            from .field import FInt, lin
+            import sympy as sp
+            return FInt(F, 1 / a.res, (lin(0, 0), lin(1, -1)))
+        if isinstance(e, int) and 0 <= e <= 8:
+            return (a ** e) % m
+        raise EngineLimit("pow with symbolic exponent in field mode")
     if all(isinstance(x, int) for x in args):
         try:
             return pow(a, e, m)
